@@ -353,6 +353,20 @@ pub open spec fn r_tell_timeout<M>(this: HandleView, pid: int, d: Duration, l0: 
     }
 }
 
+/// C09's share of a tell: the send is the WAITING one (it begins with the `Await(Send)` marker - a `try_send` has none and may
+/// answer `Full`), on this actor's one mailbox, and the call reports Ok iff that attempt was accepted.  Says nothing about what
+/// else the call does (further suspension points, dead letters): those are other properties' business.
+pub open spec fn r_waiting_send(this: HandleView, l0: Seq<Eff>, l1: Seq<Eff>, ok: bool) -> bool {
+    let n = l0.len() as int;
+    &&& l1.len() >= n + 2
+    &&& l1[n] == Eff::Await(AwaitKind::Send)
+    &&& match l1[n + 1] {
+            Eff::Enq(c, _) => c == this.mbx && ok,
+            Eff::Rejected(c, _) => c == this.mbx && !ok,
+            _ => false,
+        }
+}
+
 /// R_blocking_tell_timeout(d) (rule H): the helper thread ran `timeout(d, tell(msg))` on a private runtime and handed the
 /// result back.  It is R_tell_timeout(d) with the inner tell's own dead-letter label ("tell") and the wrapper's label on the
 /// Timeout branch; or, if tokio could not build the private runtime (environment fault, logged), Err(Send) naming this
